@@ -231,12 +231,25 @@ def main(argv):
     return rc
 
 
+def parse_coqchk_axioms(out):
+    """the '* Axioms:' block of coqchk's context summary: [] when it says <none>"""
+    import re
+    m = re.search(r"\* Axioms:(.*?)(?:\n\s*\n\* |\Z)", out, re.S)
+    if not m:
+        return ["<no context summary in coqchk output>"]
+    body = m.group(1).strip()
+    if body == "<none>":
+        return []
+    return [l.strip() for l in body.splitlines() if l.strip()]
+
+
 def V_coqchk(h):
     """coqchk over the whole compiled development, cached by source hash."""
     stamp = os.path.join(V.WORK, "coqchk-%s.json" % h)
     cmd = "coqchk -silent -o -R coq Mercure <all compiled modules>"
     if os.path.exists(stamp):
         r = json.load(open(stamp))
+        r["axioms"] = parse_coqchk_axioms(r.get("log", ""))
         r["cmd"] = cmd + " (cached for this source hash)"
         return r
     mods = []
@@ -245,9 +258,7 @@ def V_coqchk(h):
         if line.endswith(".v"):
             mods.append("Mercure." + line[:-2].replace("/", "."))
     rc, out, dt = V.run(["coqchk", "-silent", "-o", "-R", V.COQ, "Mercure"] + mods, cwd=V.VERIF, timeout=6000)
-    axioms = []
-    if "Axioms:" in out:
-        axioms = [l.strip() for l in out.split("Axioms:")[1].splitlines() if l.strip().startswith("*") or "." in l][:50]
+    axioms = parse_coqchk_axioms(out)
     r = {"ok": rc == 0, "log": out[-4000:], "axioms": axioms, "wall_s": dt, "cmd": cmd}
     if rc == 0:
         json.dump(r, open(stamp, "w"))
